@@ -139,11 +139,12 @@ def to_frame(xs, seed, cols=8):
 
 # ------------------------------------------------------------------ running the real models
 
-def run_model(det, variant, frame, bits):
+def run_model(det, variant, frame, bits, layout="C", keep_image=False):
     from pyxel.models.readout_electronics import sar_adc, sar_adc_with_noise, simple_adc
 
-    det.signal.array = frame.copy()
-    det.image.empty() if hasattr(det.image, "empty") else None
+    det.signal.array = np.array(frame, order=layout)      # layout "F": the same values, column-major in memory
+    if not keep_image:
+        det.image.empty() if hasattr(det.image, "empty") else None
     if variant[0] == "simple_adc":
         if variant[1] is None:
             simple_adc(det)
@@ -252,9 +253,10 @@ def run_case(case):
             continue
         # history: the same conversion once more on the same detector (a second readout / second run in the same
         # process) must give the same image - converters are functions of (signal, settings) only
+        # (the second call receives the frame in column-major memory layout: the same values)
         try:
             with np.errstate(all="ignore"):
-                img_again = run_model(det, variant, frame, bits)
+                img_again = run_model(det, variant, frame, bits, layout="F")
         except Exception as e:  # noqa: BLE001
             bad("second-call-raised", f"second call on the same input raised {type(e).__name__}: {str(e)[:200]}")
             continue
@@ -280,6 +282,24 @@ def run_case(case):
                 bad("code-depends-on-frame", f"pixel value {float(frame.reshape(-1)[j])!r} V is digitised as "
                     f"{img.reshape(-1)[j]} in the full test frame but as {img_sub.reshape(-1)[j]} in a frame with {tag}")
                 break
+        # history on ONE detector that is not emptied in between: a conversion with a smaller resolution first (its image
+        # stays in the detector), then the resolution under test
+        if dt_arg is None and bits > 4:
+            try:
+                det2 = mk.detector("ccd", frame.shape[0], frame.shape[1],
+                                   char_kw={"adc_bit_resolution": 4 if bits <= 8 else 8, "adc_voltage_range": (lo, hi)})
+                with np.errstate(all="ignore"):
+                    run_model(det2, variant, frame, 4 if bits <= 8 else 8)
+                    det2.characteristics.adc_bit_resolution = bits
+                    img_hist = run_model(det2, variant, frame, bits, keep_image=True)
+            except Exception as e:  # noqa: BLE001
+                bad("history-raised", f"conversion after a conversion with a smaller resolution raised {type(e).__name__}: "
+                    f"{str(e)[:200]}")
+            else:
+                if img_hist.dtype != img.dtype or not np.array_equal(img_hist, img):
+                    bad("history-differs", f"on a detector that already holds an image of a {4 if bits <= 8 else 8}-bit conversion "
+                        f"the result is dtype {img_hist.dtype}, max {int(img_hist.max())}; on a fresh detector dtype {img.dtype}, "
+                        f"max {int(img.max())}")
         y = img.reshape(-1)[back]
         outs[variant] = (y, img.dtype)
         check_codes(model, dt_arg, bits, lo, hi, xs, y, img.dtype, bad)
